@@ -89,6 +89,12 @@ def run(res, tier, seed):
     # instruction form, functions without a return, returns outside functions, empty inputs
     from gen import labels as labelshapes
     srcs += [restrict(t) for t, shape in labelshapes.shapes(rng) if not shape.endswith(":include")]
+    # control-flow arrangements that made an analysis chase its tail (loops through a function entry,
+    # slow convergence, dead chains behind an exit, exits inside functions)
+    from props.graphfacts import (dead_chain_programs, entry_by_jump_programs, exit_in_function_programs,
+                                  slow_convergence_program)
+    srcs += entry_by_jump_programs(rng) + dead_chain_programs(rng) + exit_in_function_programs(rng) + \
+        [slow_convergence_program(rng)]
     # Inputs on which the liveness iteration *as documented* has no reachable fixed point are the
     # recorded findings F-12 / F-31 (their witnesses are replayed separately at the end). The Lean
     # model of the algorithm decides membership: it exhausts its sweep bound (100 * (n + 2) sweeps)
